@@ -109,9 +109,74 @@ func c02Guards(repo, out string, args []string) error {
 			walk(fd.Body, nil)
 		}
 	}
+
+	// ---- topology.go: the Topology constants in iota order and the arms of IndexSize()
+	tf, err := parser.ParseFile(fset, filepath.Join(repo, "modeling", "topology.go"), nil, 0)
+	if err != nil {
+		return err
+	}
+	topoNames := []string{}
+	sizeArms := []string{}
+	for _, d := range tf.Decls {
+		switch x := d.(type) {
+		case *ast.GenDecl:
+			if x.Tok != token.CONST {
+				continue
+			}
+			isTopo := false
+			for i, sp := range x.Specs {
+				vs := sp.(*ast.ValueSpec)
+				if i == 0 {
+					id, ok := vs.Type.(*ast.Ident)
+					if !ok || id.Name != "Topology" || len(vs.Values) != 1 || c02Src(fset, vs.Values[0]) != "iota" {
+						break
+					}
+					isTopo = true
+				} else if vs.Type != nil || len(vs.Values) != 0 {
+					return fmt.Errorf("topology.go: constant %s breaks the iota sequence", vs.Names[0].Name)
+				}
+				if isTopo {
+					for _, n := range vs.Names {
+						topoNames = append(topoNames, strconv.Quote(n.Name))
+					}
+				}
+			}
+		case *ast.FuncDecl:
+			if x.Name.Name != "IndexSize" || x.Recv == nil {
+				continue
+			}
+			sw, ok := x.Body.List[0].(*ast.SwitchStmt)
+			if !ok {
+				return fmt.Errorf("topology.go: IndexSize does not start with a switch")
+			}
+			for _, c := range sw.Body.List {
+				cc := c.(*ast.CaseClause)
+				if cc.List == nil {
+					return fmt.Errorf("topology.go: IndexSize has a default case (unexpected shape)")
+				}
+				names := []string{}
+				for _, e := range cc.List {
+					names = append(names, strconv.Quote(c02Src(fset, e)))
+				}
+				r, ok := cc.Body[0].(*ast.ReturnStmt)
+				if !ok || len(cc.Body) != 1 {
+					return fmt.Errorf("topology.go: an arm of IndexSize is not a single return")
+				}
+				lit, ok := r.Results[0].(*ast.BasicLit)
+				if !ok || lit.Kind != token.INT {
+					return fmt.Errorf("topology.go: an arm of IndexSize does not return an integer literal")
+				}
+				sizeArms = append(sizeArms, fmt.Sprintf("([%s], %s)", strings.Join(names, ", "), lit.Value))
+			}
+		}
+	}
+	if len(topoNames) == 0 || len(sizeArms) == 0 {
+		return fmt.Errorf("topology.go: Topology constants or IndexSize not found")
+	}
 	var b strings.Builder
 	b.WriteString("/-\n  GENERATED by /verif/go/facts (mode c02.guards) from /repo/modeling/mesh.go and topology.go.\n  Do not edit: regenerated by ./check before every build.\n-/\nnamespace PolyVerif.Gen.MeshGuards\n\n")
 	fmt.Fprintf(&b, "/-- every `panic` of modeling/mesh.go and topology.go: `<file> <func>: <conditions under which it is reached>`, source order -/\ndef guards : List String :=\n  [%s]\n\n", strings.Join(rows, ",\n   "))
+	fmt.Fprintf(&b, "/-- topology.go: the `Topology` constants in iota order (value = position) -/\ndef topologies : List String := [%s]\n\n/-- topology.go: `IndexSize()`: `case A, B: return N`, source order; anything else panics -/\ndef indexSizeArms : List (List String × Nat) := [%s]\n\n", strings.Join(topoNames, ", "), strings.Join(sizeArms, ", "))
 	b.WriteString("end PolyVerif.Gen.MeshGuards\n")
 	return os.WriteFile(out, []byte(b.String()), 0o644)
 }
